@@ -94,7 +94,7 @@ Tag(ss, i) == [j \in 1..Len(ss) |-> IF ss[j].k = "assert" THEN [ss[j] EXCEPT !.a
 RECURSIVE Flat(_, _)
 Flat(sh, i) == IF i > Len(sh) THEN <<>> ELSE Tag(AtomSeq(sh[i]), i) \o Flat(sh, i + 1)
 Body(sh) == Flat(sh, 1)
-Project(sh) == [segdefs |-> <<>>,
+Project(sh) == [segdefs |-> <<>>, files |-> <<>>,
                 items |-> <<[k |-> "test", name |-> "t", body |-> Body(sh) \o <<Imp("brk")>>]>> \o Sub]
 
 VARIABLES shape, T, s
